@@ -233,6 +233,9 @@ class Inliner:
     def is_new(self, fi):
         return fi is not None and fi.qual not in self.known
 
+    def is_new_name(self, qual):
+        return qual not in self.known
+
     def resolve(self, call, owner):
         """FuncInfo of a *new* helper called here, plus (is_method, receiver expr); else None"""
         f = call.func
@@ -507,6 +510,15 @@ class Inliner:
                             tail = [s2]
                         return [ast.copy_location(x, s) for x in prelude] + t + tail
         # compound statements: recurse
+        if isinstance(s, ast.FunctionDef) and not self.is_new_name(f"{owner.qual}.{s.name}"):
+            # a nested function that already existed on the pinned tree (a search closure ..): calls it makes to *new* sibling closures /
+            # helpers are spliced into its own body, with the nested function as the owner of the names
+            cands = self.repo.funcs.get(f"{owner.qual}.{s.name}", [])
+            if len(cands) == 1 and any(isinstance(n_, ast.Call) and self.resolve(n_, cands[0]) for n_ in _walk_local(s)):
+                s2 = copy.copy(s)
+                s2.body = self._block(s.body, cands[0], depth, stack + (cands[0].qual,))
+                return [s2]
+            return [s]
         if isinstance(s, (ast.FunctionDef, ast.AsyncFunctionDef, ast.ClassDef)):
             return [s]
         s2 = copy.copy(s)
